@@ -24,7 +24,20 @@ func zzMod(path string) *compile.Module {
 	}
 }
 
-var zzTypes = [...]compile.TypeSpec{&compile.I32Spec{}, &compile.StringSpec{}, &compile.BoolSpec{}}
+// zzLinkedTypedef returns a linked typedef (its root type resolved), as the
+// compiler would hand it to the linter.
+func zzLinkedTypedef(name string, target compile.TypeSpec) compile.TypeSpec {
+	t, err := (&compile.TypedefSpec{Name: name, File: "/git/a/b.thrift", Target: target}).Link(zzMod("/git/a/b.thrift"))
+	if err != nil {
+		panic(err)
+	}
+	return t
+}
+
+// the field types a declaration can name: three base types and two typedefs
+// whose underlying types are among them
+var zzTypes = [...]compile.TypeSpec{&compile.I32Spec{}, &compile.StringSpec{}, &compile.BoolSpec{},
+	zzLinkedTypedef("UUID", &compile.StringSpec{}), zzLinkedTypedef("Count", &compile.I32Spec{})}
 
 // h20: two in-memory versions of one file; the diagnostics must be exactly
 // those the documented rules prescribe, whatever the map iteration order.
@@ -42,13 +55,16 @@ func h20() {
 		nf := 2 - si
 		fs := &compile.StructSpec{Name: names[si], File: file}
 		var ids []int16
+		var ftypes []int
 		for fi := 0; fi < nf; fi++ {
 			id := verifI16()
 			for _, o := range ids {
 				verifAssume(o != id)
 			}
 			ids = append(ids, id)
-			fs.Fields = append(fs.Fields, &compile.FieldSpec{ID: id, Name: []string{"x", "y"}[fi], Type: zzTypes[verifChoice(len(zzTypes))], Required: verifBool()})
+			fti := verifChoice(len(zzTypes))
+			ftypes = append(ftypes, fti)
+			fs.Fields = append(fs.Fields, &compile.FieldSpec{ID: id, Name: []string{"x", "y"}[fi], Type: zzTypes[fti], Required: verifBool()})
 		}
 		from.Types[names[si]] = fs
 		if verifChoice(2) == 0 {
@@ -60,8 +76,18 @@ func h20() {
 			if verifChoice(2) == 0 {
 				continue // field removed: not flagged by the documented rules
 			}
-			tf := &compile.FieldSpec{ID: ff.ID, Name: ff.Name, Type: zzTypes[verifChoice(len(zzTypes))], Required: verifBool()}
-			_ = fi
+			// new declared type: unchanged, the typedef/base partner with the same
+			// underlying type, or a type with another underlying type
+			partner := [...]int{4, 3, 0, 1, 0}
+			other := [...]int{1, 2, 3, 2, 1}
+			nti := ftypes[fi]
+			switch verifChoice(3) {
+			case 1:
+				nti = partner[nti]
+			case 2:
+				nti = other[nti]
+			}
+			tf := &compile.FieldSpec{ID: ff.ID, Name: ff.Name, Type: zzTypes[nti], Required: verifBool()}
 			ts.Fields = append(ts.Fields, tf)
 			tids = append(tids, tf.ID)
 			if !ff.Required && tf.Required {
